@@ -154,7 +154,7 @@ var vhTplTerm = []string{"\n", "\r", "\r\n", ""}
 
 func vhTplLine(i int) []byte {
 	tag := "line"
-	name := vhTplName[verifChoose(tag+".name", len(vhTplName))]
+	name := vhTplName[verifChoose(tag+".name", verifParam("NAMES", len(vhTplName)))]
 	b := []byte(name)
 	switch verifChoose(tag+".sep", 3) {
 	case 0:
@@ -163,13 +163,15 @@ func vhTplLine(i int) []byte {
 	case 2:
 		b = append(b, ':', ' ')
 	}
-	b = append(b, verifNondetBytes(tag+".hole", verifParam("HOLE", 2))...)
+	if h := verifParam("HOLE", 2); h > 0 {
+		b = append(b, verifNondetBytes(tag+".hole", h)...)
+	}
 	return b
 }
 
 func vhC01Template() []byte {
 	var s []byte
-	s = append(s, vhTplPrefix[verifChoose("prefix", len(vhTplPrefix))]...)
+	s = append(s, vhTplPrefix[verifChoose("prefix", verifParam("PREFIXES", len(vhTplPrefix)))]...)
 	nl := verifParam("LINES", 2)
 	for i := 0; i < nl; i++ {
 		s = append(s, vhTplLine(i)...)
